@@ -202,6 +202,17 @@ class Repo:
                         out.add(sub.attr)
         return out
 
+    @staticmethod
+    def own_nodes(fnode):
+        """nodes of a function body without those of nested function definitions and lambdas"""
+        stack = list(ast.iter_child_nodes(fnode))
+        while stack:
+            n = stack.pop()
+            yield n
+            if isinstance(n, (ast.FunctionDef, ast.AsyncFunctionDef, ast.Lambda)):
+                continue
+            stack.extend(ast.iter_child_nodes(n))
+
     def function(self, relfile, qualname):
         """-> (FunctionDef, ModuleInfo, ClassInfo|None).  qualname 'f', 'C.m' or 'C.m.inner'"""
         m = self.module_of_file(relfile)
